@@ -391,6 +391,13 @@ func (m *passivationManager) trigger(expected *passivationEntry) {
 		}
 
 		entry.refreshDeadline()
+		// A participant that declined (suspended, mid-restart, no longer active)
+		// without any new activity would be due again immediately: this loop would
+		// then spin without ever blocking and starve every other participant.
+		// Look again one full timeout from now instead.
+		if again := time.Now(); entry.timeout > 0 && !entry.deadline.After(again) {
+			entry.deadline = again.Add(entry.timeout)
+		}
 		cheaps.Push(&m.queue, entry)
 		m.mu.Unlock()
 		m.notify()
